@@ -23,6 +23,7 @@ struct OpStats {
   int fds_opened = 0, fds_closed = 0;
   int maps_created = 0, maps_removed = 0;
   int exec_maps_ok = 0;
+  std::vector<std::string> fired_positions;  // "<kind>.<nth>" of every transient fault that hit
 };
 
 void enable(bool on);          // off: everything passes through to libc
